@@ -102,6 +102,39 @@ func execAt(sc *scenario, cfg *params.ChainConfig, chain *me.Chain, header *type
 	return err == nil && res != nil && !res.Failed()
 }
 
+// edgeScenario overrides a generated scenario with a boundary request (mode edge).
+func edgeScenario(r *rand.Rand, k int, lowcap bool) *scenario {
+	sc := genScenario(r)
+	sc.errShift = 0
+	t := uint64(me.AddrEOA2)
+	if lowcap {
+		k = 0
+	}
+	switch k % 6 {
+	case 0: // plain transfer under an RPC gas cap below the cost of a transfer
+		sc.kind, sc.to, sc.data, sc.mono = "transfer-lowcap", &t, nil, true
+		sc.req.Value, sc.req.GasCap, sc.req.FeeCap = 1, uint64(1+r.Intn(20999)), 0
+	case 1: // plain transfer with funds for less than 21000 gas
+		sc.kind, sc.to, sc.data, sc.mono = "transfer-poor", &t, nil, true
+		sc.req.Value, sc.req.GasCap, sc.req.FeeCap = 1, 0, 10
+		sc.req.Balance = 1 + 10*uint64(r.Intn(21000))
+	case 2: // caller gas below 21000 is ignored in favour of the block gas limit
+		sc.req.CallGas = uint64(r.Intn(21000))
+	case 3: // gas cap exactly at / one below the requirement is found by the regular path
+		sc.req.GasCap = 21000 + uint64(r.Intn(3))
+	case 4: // Osaka: caller gas above the transaction cap
+		sc.fork, sc.req.Osaka = "osaka", true
+		sc.req.CallGas, sc.req.GasCap, sc.req.FeeCap = 16_777_216+uint64(r.Intn(1000)), 0, 0
+	default: // allowance one unit around the requirement
+		sc.req.FeeCap = 1
+		sc.req.Balance = sc.req.Value + 21000 + uint64(r.Intn(60000))
+	}
+	if w := sc.world.Get(me.AddrSender); w != nil {
+		w.Balance = sc.req.Balance
+	}
+	return sc
+}
+
 func genScenario(r *rand.Rand) *scenario {
 	sc := &scenario{fork: me.Forks[r.Intn(3)]}
 	sc.req.Osaka = sc.fork == "osaka"
@@ -222,7 +255,7 @@ func genScenario(r *rand.Rand) *scenario {
 	return sc
 }
 
-func runRecord(path string, seed int64, n int, sum *tl.Summary) {
+func runRecord(path string, seed int64, n int, edge string, sum *tl.Summary) {
 	r := tl.Rand(seed)
 	tr := tl.NewTrace(path)
 	defer tr.Close()
@@ -244,7 +277,12 @@ func runRecord(path string, seed int64, n int, sum *tl.Summary) {
 	}
 	shapes := map[string]bool{}
 	for i := 0; i < n; i++ {
-		sc := genScenario(r)
+		var sc *scenario
+		if edge != "" {
+			sc = edgeScenario(r, i, edge == "lowcap")
+		} else {
+			sc = genScenario(r)
+		}
 		cfg := me.ChainConfig(sc.fork)
 		chain := me.NewChain(cfg)
 		header := me.Header(sc.req.BlockGas, 0)
@@ -320,7 +358,7 @@ func runRecord(path string, seed int64, n int, sum *tl.Summary) {
 }
 
 func main() {
-	mode := flag.String("mode", "record", "record")
+	mode := flag.String("mode", "record", "record|edge|lowcap")
 	trace := flag.String("trace", "trace.ndjson", "output trace")
 	out := flag.String("out", "summary.json", "summary output")
 	n := flag.Int("n", 200, "number of estimations")
@@ -329,7 +367,9 @@ func main() {
 	sum := tl.NewSummary("c37", *mode, seed)
 	switch *mode {
 	case "record":
-		runRecord(*trace, seed, *n, sum)
+		runRecord(*trace, seed, *n, "", sum)
+	case "edge", "lowcap":
+		runRecord(*trace, seed, *n, *mode, sum)
 	default:
 		tl.Fatal("bad mode")
 	}
